@@ -823,7 +823,7 @@ def check(run, only=None):
     run.extra['rule'] = ('keys: fixed edge set (all zero, all ff, every count of leading zero bytes, first byte 00..0f) + seeded random, each formatted by the real LowerHex and fed to a real --doer '
                          'that is then talked to with the original key; malformed key lines; scripted launches: the four handshake lines in all 5 causally possible orders x noise densities, '
                          'hand-written and random adversarial sequences against the real launch_doer_via_ssh; e2e: remote state x deploy behaviour x prompt answer matrix, 5 orders x noise around a real doer, '
-                         'both doers remote, deployment faults.  A case is non-trivial when a key round trip ran / the loop saw a handshake line / at least one launch happened; distinct by scenario content')
+                         'both doers remote, deploy-and-retry in which both launches get a key (key lines of all launches of a run compared), deployment faults.  A case is non-trivial when a key round trip ran / the loop saw a handshake line / at least one launch happened; distinct by scenario content')
     ctx = setup_ctx(run)
     run.check_proofs('C15', THEOREMS, extra_targets=['theories/Extract/Ex_launch.vo'])
     ctx.jbin = vlib.build_judge('launch')
